@@ -87,7 +87,7 @@ pub fn convert_ctehexml(text: &str, level: u64) -> Result<Model, anyhow::Error> 
     let d = hulc::ctehexml::parse_with_catalog(text)?;
     let mut m = Model::try_from(&d)?;
     if level >= 2 {
-        hulc2model::fix_ecdata_from_extra::<&Path>(&mut m, &None, &None);
+        hulc2model::fix_ecdata_from_extra::<&Path>(&mut m, &None, &None)?;
     }
     Ok(m)
 }
@@ -285,6 +285,12 @@ pub fn run(ctx: &mut WorkerCtx, job: &Value) -> JobOutput {
                             .collect::<std::collections::BTreeSet<_>>());
                         result["check_n"] = json!(nwarn);
                         result["lost_n"] = json!(lost.len());
+                        if !lost.is_empty() {
+                            let dl = diskfault::split_lines(&damaged);
+                            let blocks = diskfault::scan_blocks(&dl);
+                            result["n_space_conditions_blocks"] = json!(blocks.iter().filter(|b| b.btype == "SPACE-CONDITIONS").count());
+                            result["n_system_conditions_blocks"] = json!(blocks.iter().filter(|b| b.btype == "SYSTEM-CONDITIONS").count());
+                        }
                         result["lost"] = json!(lost.iter().take(4).collect::<Vec<_>>());
                         result["lost_kinds"] = json!(lost
                             .iter()
